@@ -202,6 +202,8 @@ type Hooks struct {
 	TypeCase func(in *Interp, st *State, s *ast.TypeSwitchStmt, cc *ast.CaseClause, x Value, ts []types.Type) (Value, bool)
 	// StructLit is told the field values of a struct literal.
 	StructLit func(in *Interp, st *State, e *ast.CompositeLit, names []string, vals []Value)
+	// Slice gives the value of x[lo:hi] from the evaluated operands (nil: bound absent).
+	Slice func(in *Interp, st *State, e *ast.SliceExpr, x Value, lo, hi *Value) (Value, bool)
 	// CaseMatch is told that a tagged switch with a non-constant tag takes
 	// (taken) or skips the case expression; returning false drops the path.
 	CaseMatch func(in *Interp, st *State, tag Value, caseExpr ast.Expr, taken bool) bool
@@ -1093,6 +1095,41 @@ func (in *Interp) eval(st *State, e ast.Expr) []valState {
 				return one(st, v)
 			}
 		}
+		// a package-level table of functions (a list of steps) is a known list
+		if pv, ok := obj.(*types.Var); ok && pv.Pkg() != nil && pv.Parent() == pv.Pkg().Scope() {
+			if t := pv.Type(); t != nil {
+				var elem types.Type
+				switch u := t.Underlying().(type) {
+				case *types.Slice:
+					elem = u.Elem()
+				case *types.Array:
+					elem = u.Elem()
+				}
+				if elem != nil {
+					if _, isFn := elem.Underlying().(*types.Signature); isFn {
+						if lit := in.c.tableLiteral(pv); lit != nil {
+							list := Value{K: vList}
+							okAll := true
+							for _, el := range lit.Elts {
+								if _, isKV := el.(*ast.KeyValueExpr); isKV {
+									okAll = false
+									break
+								}
+								v := in.literalValue(el)
+								if v.K != vFunc {
+									okAll = false
+									break
+								}
+								list.Tup = append(list.Tup, v)
+							}
+							if okAll && len(list.Tup) > 0 {
+								return one(st, list)
+							}
+						}
+					}
+				}
+			}
+		}
 		return one(st, Value{K: vUnknown, T: in.c.typeOf(e)})
 	case *ast.FuncLit:
 		return one(st, Value{K: vFunc, Lit: e})
@@ -1151,6 +1188,11 @@ func (in *Interp) eval(st *State, e ast.Expr) []valState {
 			case token.NOT:
 				if vs.v.K == vConst && vs.v.C.Kind() == constant.Bool {
 					v = constV(constant.MakeBool(!constant.BoolVal(vs.v.C)))
+				} else if in.h.BinOp != nil {
+					// a domain may give the negation of an abstract value (asked as  v NOT <nothing>)
+					if nv, ok := in.h.BinOp(vs.v, token.NOT, Value{}); ok {
+						v = nv
+					}
 				}
 			case token.AND:
 				v = vs.v // address-of keeps the abstract value
@@ -1212,6 +1254,39 @@ func (in *Interp) eval(st *State, e ast.Expr) []valState {
 			if v, ok := in.h.Load(in, st, e); ok {
 				return one(st, v)
 			}
+		}
+		if in.h.Slice != nil {
+			// operands first (they may fork), then the domain's view of the slice
+			var out []valState
+			for _, xv := range in.eval(st, e.X) {
+				los := []valState{{xv.st, Value{}}}
+				if e.Low != nil {
+					los = in.eval(xv.st, e.Low)
+				}
+				for _, lv := range los {
+					his := []valState{{lv.st, Value{}}}
+					if e.High != nil {
+						his = in.eval(lv.st, e.High)
+					}
+					for _, hv := range his {
+						var lo, hi *Value
+						if e.Low != nil {
+							v := lv.v
+							lo = &v
+						}
+						if e.High != nil {
+							v := hv.v
+							hi = &v
+						}
+						if v, ok := in.h.Slice(in, hv.st, e, xv.v, lo, hi); ok {
+							out = append(out, valState{hv.st, v})
+						} else {
+							out = append(out, valState{hv.st, Value{K: vUnknown, T: in.c.typeOf(e)}})
+						}
+					}
+				}
+			}
+			return out
 		}
 		return in.evalForEffects(st, []ast.Expr{e.X, e.Low, e.High, e.Max}, in.c.typeOf(e))
 	case *ast.TypeAssertExpr:
